@@ -331,6 +331,19 @@ func (update *Update) Prepend(eventlist *EventList) error {
 	if count == 0 {
 		return nil
 	}
+	if update.SignedAccumulator == nil || update.SignedAccumulator.Accumulator == nil {
+		return errors.New("cannot prepend to an update whose signed accumulator has not been verified")
+	}
+	if len(update.Events) == 0 {
+		// we have no events to connect to: the prepended events must be the whole chain up to our accumulator
+		events := append([]*Event{}, eventlist.Events...)
+		if err := NewEventList(events...).Verify(update.SignedAccumulator.Accumulator); err != nil {
+			return err
+		}
+		update.Events = events
+		update.product = nil
+		return nil
+	}
 	ours := update.Events[0].Index
 	last := eventlist.Events[count-1].Index
 	if last < ours-1 {
